@@ -285,7 +285,7 @@ GapSafe ==
         /\ x.k = "e" => /\ \A u \in 1..Len(LazyNs(j)) : LazyNs(j)[u].pos < position
                         /\ \A u \in 1..Len(LazyAttrs(j)) : LazyAttrs(j)[u].pos < position
 
-Terminal == pc \in {"ret", "done"}
+Terminal == pc = "ret"      \* the state in which the caller receives the tree (Report only observes it)
 
 (* REFINEMENT: the tree seen by the caller is the definitional image *)
 Faithful == Terminal =>        \* exactly one node per constituent, in document order, by iter()
@@ -320,8 +320,9 @@ RootKind == Terminal =>      \* the returned node is a document iff the configur
 Refinement == /\ Faithful /\ StrictlyIncreasing /\ ParentsConsistent /\ ChildrenConsistent
               /\ NoOrphans /\ NsFaithful /\ RootKind
 
-(* the definitional image obeys the XDM document-order rules (checked once per input) *)
-DefOK == pc = "start" => DefLaws
+(* the definitional image obeys the XDM document-order rules (checked once per input; not in the
+   initial state, whose invariants TLC evaluates in its single-threaded start-up phase) *)
+DefOK == pc = "roottext" => DefLaws
 
 (* anti-vacuity helper: some behaviour terminates *)
 NeverDone == pc # "done"
